@@ -624,11 +624,28 @@ func one(ctx context.Context, w *run.Worker, c *run.Case) {
 			w.Distinct(fmt.Sprintf("%v|pos=%d|ext=%d|inflight=%v|conc=%v", cfg, b-pops, extent, inflight != nil, conc))
 		}
 
-		// The store keeps accepting uploads.
-		for k := r.Range(1, 6); k > 0; k-- {
+		// The store keeps accepting uploads - also when the first block
+		// allocation after the quarantine fails (no free region at that
+		// moment): that upload is refused, the following ones are not.
+		nUploads := r.Range(1, 6)
+		injectedAt := int64(-1)
+		if r.Chance(1, 3) {
+			injectedAt = s.Alloc.Calls() + 1
+			s.Alloc.FailAt[injectedAt] = true
+			s.Alloc.FailErr = status.Error(codes.Unavailable, "injected allocation failure")
+			nUploads = r.Range(6, 3*cfg.BlockCount()+6)
+			w.Count("allocation_failures_injected_after_detection", 1)
+		}
+		for k := nUploads; k > 0; k-- {
 			o := newObj(r.Range(1, block/3))
+			callsBefore := s.Alloc.Calls()
 			err := put(o, nil)
 			w.Count("uploads_after_detection", 1)
+			if err != nil && injectedAt > callsBefore && injectedAt <= s.Alloc.Calls() {
+				// this upload ran into the injected allocation failure
+				w.Count("uploads_refused_by_injected_allocation_failure", 1)
+				continue
+			}
 			if err != nil {
 				c.Violation("localstore.Put:upload-refused-after-detection", "an upload after a detected corruption failed with %v", err)
 				continue
@@ -637,6 +654,9 @@ func one(ctx context.Context, w *run.Worker, c *run.Case) {
 				c.Violation("localstore.Get:upload-after-detection-unreadable", "an object uploaded after the detection reads back %v", err)
 			}
 			objs = append(objs, o)
+		}
+		if injectedAt >= 0 {
+			delete(s.Alloc.FailAt, injectedAt)
 		}
 		// Drop quarantined objects from the universe.
 		var keep []*obj
